@@ -308,6 +308,9 @@ def check(P, R):
              why='the request goes to the handler registered for its method', key_extra='method-fresh')
     else:
         R.undecided('C02.a', pm, pm.node, 'request.method', f'decorators {decos} are neither a plain property nor a known memoiser')
+    # the Allow header the handler gives to HTTPError(405, Allow=...) reaches the response whatever its value (empty when every method was removed)
+    from . import c14 as _c14
+    _c14.check_ctor_stores_every_header(P, R, 'C02.d', '405 carries an Allow header listing exactly the registered methods - also when there are none left')
     h = P.func(f'{OM}:Ombott._handle')
     tc = T.calls_to(h, 'self.to_route')
     def _req_attr(e, attr, at):
